@@ -1615,9 +1615,14 @@ impl<'a> Evaluator<'a> {
                                 _ => items.iter().step_by(n.max(1)).cloned().collect(),
                             }));
                         }
-                        "map" | "filter" | "filter_map" | "flat_map" | "find" | "find_map" | "position" | "for_each" | "skip_while" | "take_while" => {
+                        "map" | "filter" | "filter_map" | "flat_map" | "find" | "find_map" | "position" | "for_each" | "skip_while" | "take_while" | "map_while" => {
                             let mut out = vec![];
+                            let mut skipping = true;
                             for (idx, it) in items.iter().enumerate() {
+                                if name == "skip_while" && !skipping {
+                                    out.push(it.clone());
+                                    continue;
+                                }
                                 let r = self.apply_closure_mut(&mc.args[0], &[it.clone()], env)?;
                                 match name.as_str() {
                                     "map" => out.push(r),
@@ -1655,6 +1660,25 @@ impl<'a> Evaluator<'a> {
                                             }
                                         }
                                     }
+                                    // the lazy adaptors stop (or start) at the first element that decides
+                                    "take_while" => match r {
+                                        Val::Bool(true) => out.push(it.clone()),
+                                        Val::Bool(false) => break,
+                                        o => return Err(format!("take_while closure returned {}", o.show())),
+                                    },
+                                    "map_while" => match r {
+                                        Val::Ctor(n, p, _) if n == "Some" => out.push(p.into_iter().next().unwrap_or(Val::Unit)),
+                                        Val::Ctor(n, _, _) if n == "None" => break,
+                                        o => return Err(format!("map_while closure returned {}", o.show())),
+                                    },
+                                    "skip_while" => match r {
+                                        Val::Bool(true) => {}
+                                        Val::Bool(false) => {
+                                            skipping = false;
+                                            out.push(it.clone());
+                                        }
+                                        o => return Err(format!("skip_while closure returned {}", o.show())),
+                                    },
                                     _ => return Err(format!("unsupported list combinator {}", name)),
                                 }
                             }
